@@ -325,3 +325,32 @@ Proof.
   - rewrite <- nth_raw_self in HK. subst n. apply nth_raw_inj in HK. lia.
   - apply NA. now apply K.
 Qed.
+
+(** ---------------------------------------------------------------------------------------
+    the order of the reuse pool is total on generated names: the HashMap iteration order in
+    [Scope::pop] (values are extended in arbitrary order, then sorted) cannot influence it *)
+Lemma cmp_char_eq a b :
+  is_ident_char a = true -> is_ident_char b = true -> cmp_char a b = Eq -> a = b.
+Proof.
+  unfold cmp_char, is_ident_char, is_ident_start, is_lower, is_upper, is_digit. intros Ha Hb.
+  destruct (a =? b) eqn:E; [intros _; lia|].
+  destruct ((48 <=? a) && (a <=? 57) && ((48 <=? b) && (b <=? 57))
+            || (97 <=? a) && (a <=? 122) && ((97 <=? b) && (b <=? 122))
+            || (65 <=? a) && (a <=? 90) && ((65 <=? b) && (b <=? 90))) eqn:C.
+  - intros K. apply N.compare_eq in K. exact K.
+  - destruct ((48 <=? a) && (a <=? 57)) eqn:D1; [discriminate|].
+    destruct ((48 <=? b) && (b <=? 57)) eqn:D2; [discriminate|].
+    destruct (a =? 95) eqn:U1; [discriminate|]. destruct (b =? 95) eqn:U2; [discriminate|].
+    destruct ((97 <=? a) && (a <=? 122)) eqn:L1; [discriminate|].
+    destruct ((97 <=? b) && (b <=? 122)) eqn:L2; [discriminate|]. intros _. lia.
+Qed.
+
+Theorem cmp_ident_total : forall a b,
+  Forall (fun c => is_ident_char c = true) a -> Forall (fun c => is_ident_char c = true) b ->
+  cmp_ident a b = Eq -> a = b.
+Proof.
+  induction a as [|x a IH]; intros [|y b] Fa Fb H; cbn [cmp_ident] in H; try discriminate; [reflexivity|].
+  inversion Fa; inversion Fb; subst.
+  destruct (cmp_char x y) eqn:C; try discriminate.
+  apply cmp_char_eq in C; try assumption. subst y. f_equal. now apply IH.
+Qed.
